@@ -371,7 +371,7 @@ func C15(tier string) int {
 	}
 	res.Extra["extensions"] = extInfo
 	res.Sample(M{"part": "extension", "vocabulary": vocabs[0].Label, "types": len(vocabs[0].Types), "properties": len(vocabs[0].Props)})
-	res.Rule = "(1) astool built from the current tree regenerates streams/: same file set, same Go syntax trees, through both documented invocations ('<dest>' and, from inside the destination, '.'); generator runs are confined to their scratch directory by a private mount namespace with a read-only root; (2) astool rebuilt through the map-order overlay (every range over a map iterates in an order chosen by the explorer): baseline ASC, then per site DESC (deviation bound 1), global DESC and global ROTATE (thorough: per site ROTATE and all pairs of sites under DESC within the time budget) - every run's output tree must be byte-identical to the baseline; (3) extension vocabularies layered on ActivityStreams from a shape family (types with parents Object / Activity / Link / Collection / own type / two levels down / multiple parents / two parents across a property-withholding branch / lattice shapes with redundant and already-reached parents / a parentless typeless type; two extension vocabularies stacked on each other in one run; a vocabulary binding every namespace to other prefixes than the shipped files; a vocabulary layered on ActivityStreams AND ForgeFed (three files) with types below and properties over ForgeFed types; a vocabulary whose type shares its name with a referenced type (C13 driver; recorded finding); a typeless type below a typed one (C12 and C01 drivers; recorded finding); properties over 5 domain shapes x 8 range shapes x functional x withheld-from-own-child): astool must succeed, the code must compile, and the C13, C12, C01, C14 (thorough: C18) drivers rebuilt against the generated tree with a binding table from the extended ontology must pass; states = order policies + vocabularies, transitions = astool runs"
+	res.Rule = "(1) astool built from the current tree regenerates streams/: same file set, same Go syntax trees, through both documented invocations ('<dest>' and, from inside the destination, '.'); generator runs are confined to their scratch directory by a private mount namespace with a read-only root; (2) astool rebuilt through the map-order overlay (every range over a map iterates in an order chosen by the explorer): baseline ASC, then per site DESC (deviation bound 1), global DESC and global ROTATE (thorough: per site ROTATE and all pairs of sites under DESC within the time budget) - every run's output tree must be byte-identical to the baseline; (3) extension vocabularies layered on ActivityStreams from a shape family (types with parents Object / Activity / Link / Collection / own type / two levels down / multiple parents / two parents across a property-withholding branch / lattice shapes with redundant and already-reached parents / a single-parent chain nine levels below Object with siblings on its fourth level / five levels below TentativeAccept / two stacked multi-parent types with disjointness declared on one branch / a parentless typeless type; two extension vocabularies stacked on each other in one run; a vocabulary binding every namespace to other prefixes than the shipped files; a vocabulary layered on ActivityStreams AND ForgeFed (three files) with types below and properties over ForgeFed types; a vocabulary whose type shares its name with a referenced type (C13 driver; recorded finding); a typeless type below a typed one (C12 and C01 drivers; recorded finding); properties over 5 domain shapes x 8 range shapes x functional x withheld-from-own-child): astool must succeed, the code must compile, and the C13, C12, C01, C14 (thorough: C18) drivers rebuilt against the generated tree with a binding table from the extended ontology must pass; states = order policies + vocabularies, transitions = astool runs"
 	res.Assumptions = []string{"'any well-formed extension' is replaced by the stated shape family", "map orders other than the enumerated policies are not covered", "go/parser + go/printer decide syntax-tree equality"}
 	return res.Finish()
 }
